@@ -26,6 +26,7 @@ def run(ctx):
         msgs.append((m, rng.chance(1, 2)))
     # encode on the implementation
     gen_obs = [U.do_gen(m, legacy) for m, legacy in msgs]
+    U.gen_reuse_check(ctx, msgs, gen_obs, "c01-gen-history")
     idx = list(range(len(msgs)))
     op = lambda m: "w_trxd_tx_gen" if m["kind"] == "tx" else "w_trxd_rx_gen"
     ctx.correspond("gen_msg", "Trxd", idx,
